@@ -59,8 +59,9 @@ def observe_case(spec):
     for cfgname, parser, lexer in cfgs:
         try:
             with O.budget(30):
-                ps = Lark(tg, parser=parser, lexer=lexer, propagate_positions=True)
-                pb = Lark(tg, parser=parser, lexer=lexer, propagate_positions=True, use_bytes=True)
+                kw1, kw2 = ({'postlex': tree_indenter()}, {'postlex': tree_indenter()}) if spec.get('postlex') else ({}, {})
+                ps = Lark(tg, parser=parser, lexer=lexer, propagate_positions=True, **kw1)
+                pb = Lark(tg, parser=parser, lexer=lexer, propagate_positions=True, use_bytes=True, **kw2)
         except Exception:
             continue
         dyn = 'dynamic' in lexer
@@ -123,8 +124,46 @@ HIGH = [
 ]
 
 
+# the stock Indenter as post-lexer: the representation of the newline token must not matter (hunted defect 30: handle_NL read
+# the indentation off str(token), which for a bytes token is its repr - IndexError on the first line break)
+INDENTED = '''?start: _NL* tree
+tree: NAME _NL [_INDENT tree+ _DEDENT]
+NAME: /[ab]+/
+%declare _INDENT _DEDENT
+%ignore / +/
+_NL: /(\\n[\\t ]*)+/
+'''
+
+
+def tree_indenter():
+    from lark.indenter import Indenter
+
+    class TreeIndenter(Indenter):
+        NL_type = '_NL'
+        OPEN_PAREN_types = []
+        CLOSE_PAREN_types = []
+        INDENT_type = '_INDENT'
+        DEDENT_type = '_DEDENT'
+        tab_len = 4
+    return TreeIndenter()
+
+
 def specs(tier, rng):
     out = []
+    windows = []
+    for _ in range(60):
+        lines, lv = [], [0]
+        for _ in range(rng.randint(1, 5)):
+            r = rng.random()
+            if r < 0.4 and lines:
+                lv.append(lv[-1] + rng.randint(1, 2))
+            elif r < 0.7 and len(lv) > 1:
+                lv.pop()
+            lines.append(' ' * lv[-1] + rng.choice(['a', 'b', 'ab']))
+        buf = '\n'.join(lines) + rng.choice(['\n', '\n\n', '\n  \n'])
+        pre = rng.choice(['', 'a\n', 'b b\n\n'])
+        windows += [[buf, 0, len(buf)], [pre + buf, len(pre), len(pre) + len(buf)]]
+    out.append({'terms': [], 'tree_grammar': INDENTED, 'windows': windows, 'texts': [], 'family': 'F_indent', 'postlex': True})
     for tg in HIGH:
         windows = []
         for _ in range(30):
